@@ -344,6 +344,15 @@ def run(ctx):
     for i in range(n):
         if not ctx.alive():
             break
+        if rng.random() < 0.01:
+            from plotink import rtree as _rt
+            for bad in (None, [(1, (0, 0))], [(1, None)], 5, [("a", (0, 0, "x", 1))]):
+                try:
+                    _rt.Index(bad).intersection((0, 0, 1, 1))
+                except Exception:
+                    pass
+                mon.depth_init = mon.depth_query = 0
+            ctx.tag("history: after failed constructions / queries (malformed arguments)")
         cls, boxes = gen_boxes(rng)
         queries = [gen_query(rng, boxes) for _ in range(5)]
         if i < 40 or len(boxes) <= 6:
